@@ -155,6 +155,11 @@ structure Alg (ρ σ : Type) where
   enter : String → List ρ → Nat → σ → Except String (List ρ × σ)
   post : String → List ρ → σ → Except String (ρ × σ)
 
+/-- The same translator with another table of global names (what `free` answers for a name no frame binds: the
+namespaces declared through `define_enum` metadata live in a module-level table of `cpp_types`). -/
+def Alg.withFree {ρ σ} (alg : Alg ρ σ) (free' : String → σ → Except String (ρ × σ)) : Alg ρ σ :=
+  { alg with free := free' }
+
 /-- A call whose function is a name bound by a lambda: the real visitor dispatches on the spelling of the name
 (`call_<name>`) and otherwise raises "Do not know how to call"; the model refuses all of them. -/
 def boundHead {ρ} (st : Stack ρ) (x : String) : Bool := (st.lookup x).isSome
